@@ -31,7 +31,7 @@ LEVEL_NOTE = ('Grids are pairwise non-degenerate by construction and the referen
 RULE = ("cases: package configurations; executions: one whole pipeline run (data file with all plants of the configuration) and one evaluation per planted source; non-trivial = "
         "distinct (configuration, planted model, A_V0, distance) with a non-identity parameter table or a multi-aperture package")
 ASSUMPTIONS = ["pairwise non-degenerate model grids (margin measured by the reference)", "photometric errors equal relative size on all bands"]
-REQUIRED_CLASSES = ['package-of-100-models', 'two-packages-under-one-relative-path', 'mode-2d', 'mode-3d', 'fmt-v1', 'fmt-v2', 'planted-at-av-range-end', 'planted-first-distance', 'planted-last-distance', 'permuted-table', 'listing-first-row', 'seds-on-different-grids', 'dead-model-in-package', 'plot-only-band-with-wrong-value', 'seds-stored-in-Jy', 'pipeline-run-twice', 'distance-range-in-pc', 'object-result-after-other-package', 'layout-changed-between-convolutions']
+REQUIRED_CLASSES = ['neighbouring-file-with-dotted-suffix', 'package-of-100-models', 'two-packages-under-one-relative-path', 'mode-2d', 'mode-3d', 'fmt-v1', 'fmt-v2', 'planted-at-av-range-end', 'planted-first-distance', 'planted-last-distance', 'permuted-table', 'listing-first-row', 'seds-on-different-grids', 'dead-model-in-package', 'plot-only-band-with-wrong-value', 'seds-stored-in-Jy', 'pipeline-run-twice', 'distance-range-in-pc', 'object-result-after-other-package', 'layout-changed-between-convolutions']
 TIMEOUT = {'quick': 600, 'thorough': 3000}
 
 AXES = {'fmt': ['v1', 'v2'], 'n_ap': [3, 1], 'n_models': [4, 2, 6], 'perm': ['rotated', 'identity', 'reversed'], 'sord': ['wav-desc', 'wav-asc'], 'rel': [0.01, 0.1], 'grids': ['same', 'interior'], 'dead': [False, True], 'funit': ['mJy', 'Jy'], 'dunit': ['kpc', 'pc']}
@@ -100,6 +100,11 @@ def run_case(ctx, case, rec, d):
         rec.violation('pipeline|convolve|' + exc_signature(e), {'stage': 'convolve'}, {'type': type(e).__name__, 'msg': str(e)[:300]})
         return
     rec.trans()
+    # another filter's file whose name extends the first filter's name with a dotted suffix sits next to it: it is never asked for
+    import shutil as _shu
+    _b0, _b1 = filt[0].name, filt[1].name
+    _shu.copy(os.path.join(pk['md'], 'convolved', _b1 + '.fits'), os.path.join(pk['md'], 'convolved', _b0 + '.cc.fits'))
+    rec.cls('neighbouring-file-with-dotted-suffix')
     conv = sp.exact_convolved(pk, fdefs, filt)                 # (n_models, 3 bands, n_ap)
     bands = [f.name for f in filt]
     cw = [x[1] for x in fdefs]
